@@ -16,6 +16,7 @@ import (
 	"google.golang.org/protobuf/encoding/protodelim"
 
 	"github.com/prometheus/alertmanager/alert"
+	"github.com/prometheus/alertmanager/nflog"
 	pb "github.com/prometheus/alertmanager/nflog/nflogpb"
 
 	"verifharness/sim"
@@ -24,19 +25,19 @@ import (
 
 // ClusterJ describes the cluster part of a scenario (JSON, replayable).
 type ClusterJ struct {
-	N           int     `json:"n"`
-	PeerTimeout int64   `json:"peer_timeout"`
-	Positions   []int   `json:"positions"` // position of instance i
-	NetSeed     uint64  `json:"net_seed"`
-	Healthy     bool    `json:"healthy"` // no loss, small delays, no crashes, no receiver faults
+	N           int      `json:"n"`
+	PeerTimeout int64    `json:"peer_timeout"`
+	Positions   []int    `json:"positions"` // position of instance i
+	NetSeed     uint64   `json:"net_seed"`
+	Healthy     bool     `json:"healthy"` // no loss, small delays, no crashes, no receiver faults
 	Crashes     []CrashJ `json:"crashes"`
 }
 
 type CrashJ struct {
-	Inst     int   `json:"inst"`  // never 0: instance 0 stays up
-	AtOp     int   `json:"at_op"` // crash right before this op
-	DownOps  int   `json:"down_ops"` // restart right before op AtOp+DownOps (0 = never)
-	Snapshot bool  `json:"snapshot"` // restart from the log state held at the crash
+	Inst     int  `json:"inst"`     // never 0: instance 0 stays up
+	AtOp     int  `json:"at_op"`    // crash right before this op
+	DownOps  int  `json:"down_ops"` // restart right before op AtOp+DownOps (0 = never)
+	Snapshot bool `json:"snapshot"` // restart from the log state held at the crash
 }
 
 // ClusterScenario = a scenario every instance receives + the cluster behaviour.
@@ -47,7 +48,8 @@ type ClusterScenario struct {
 
 func GenCluster(r *vh.Rand, healthy bool) ClusterScenario {
 	var cs ClusterScenario
-	cs.Sc = Gen(r, GenOpts{MaxOps: 8, Faults: !healthy && r.Chance(1, 2), MultiInt: r.Chance(1, 3)})
+	join := !healthy && r.Chance(1, 4) // an instance joins late without a snapshot: it receives a multi-entry full state
+	cs.Sc = Gen(r, GenOpts{MaxOps: 8, Faults: !healthy && !join && r.Chance(1, 2), MultiInt: join || r.Chance(1, 3)})
 	if healthy {
 		// no receiver faults at all (slow sends of 3 s stay below the peer timeout)
 		for name := range cs.Sc.Receivers {
@@ -73,13 +75,47 @@ func GenCluster(r *vh.Rand, healthy bool) ClusterScenario {
 	cs.Cl.Positions = perm
 	cs.Cl.NetSeed = r.U64()
 	cs.Cl.Healthy = healthy
-	if !healthy && cs.Cl.N > 1 {
+	if join {
+		if cs.Cl.N < 2 {
+			cs.Cl.N = 2
+			cs.Cl.Positions = []int{0, 1}
+			vh.Shuffle(r, cs.Cl.Positions)
+		}
+		down := len(cs.Sc.Ops) - 1
+		if down < 1 {
+			down = 1
+		}
+		cs.Cl.Crashes = append(cs.Cl.Crashes, CrashJ{Inst: 1, AtOp: 0, DownOps: r.Range(1, down), Snapshot: false})
+	} else if !healthy && cs.Cl.N > 1 {
 		nc := r.Intn(3)
 		for k := 0; k < nc; k++ {
 			cs.Cl.Crashes = append(cs.Cl.Crashes, CrashJ{Inst: r.Range(1, cs.Cl.N-1), AtOp: r.Intn(len(cs.Sc.Ops) + 1), DownOps: r.Intn(3), Snapshot: r.Bool()})
 		}
 	}
 	return cs
+}
+
+// deliver merges gossip bytes into an instance's log and checks, atomically with the merge, that every delivered
+// entry that is unexpired is now covered by the stored entry of its key (same or newer timestamp): "a delivered
+// update is merged" for every entry of a multi-entry message (full-state exchange on join / push-pull).
+func deliver(in *inst, b []byte, findings *[]vh.Violation, cs *ClusterScenario, how string) {
+	now := time.Now()
+	_ = in.s.MergeNflogThen(b, mergeRecs(b), func(l *nflog.Log) {
+		for _, e := range decodeEntries(b) {
+			if e.Entry == nil || e.Entry.Receiver == nil || e.ExpiresAt.AsTime().Before(now) {
+				continue
+			}
+			got, err := l.Query(nflog.QGroupKey(string(e.Entry.GroupKey)), nflog.QReceiver(e.Entry.Receiver))
+			if err == nil && len(got) == 1 && !got[0].Timestamp.AsTime().Before(e.Entry.Timestamp.AsTime()) {
+				continue
+			}
+			if len(*findings) < 3 {
+				*findings = append(*findings, vh.Violation{Key: "delivered-log-entry-not-merged",
+					What: fmt.Sprintf("instance %d received (%s, %d entries) the unexpired notification-log entry of %s / %s/%d stamped %v but does not hold it (or a newer one) afterwards: it will notify again although a peer already did", in.res.Instance, how, len(decodeEntries(b)), e.Entry.GroupKey, e.Entry.Receiver.GroupName, e.Entry.Receiver.Idx, e.Entry.Timestamp.AsTime().UTC()),
+					Case: cs})
+			}
+		}
+	})
 }
 
 type inst struct {
@@ -122,6 +158,7 @@ func mergeRecs(b []byte) []sim.Rec {
 func RunCluster(t *testing.T, cs *ClusterScenario) []*Result {
 	sc := &cs.Sc
 	var results []*Result
+	var findings []vh.Violation
 	ok := sim.Bubble(t, 10*time.Second, func(t *testing.T) {
 		net := vh.NewRand(cs.Cl.NetSeed)
 		pp := vh.NewRand(cs.Cl.NetSeed + 7)
@@ -137,6 +174,7 @@ func RunCluster(t *testing.T, cs *ClusterScenario) []*Result {
 			}
 		}
 		var route func(from int, b []byte)
+		findings = nil
 		newResult := func(i int) *Result {
 			r := &Result{Sc: sc, Groups: map[string]*GroupInfo{}, IDOf: map[string]int{}, Hash: map[uint64]int{}, member: map[int][]string{}}
 			for k, m := range sc.LabelSets {
@@ -208,7 +246,7 @@ func RunCluster(t *testing.T, cs *ClusterScenario) []*Result {
 						time.Sleep(d)
 						in := insts[jj]
 						if in != nil && in.alive {
-							_ = in.s.MergeNflog(b, mergeRecs(b))
+							deliver(in, b, &findings, cs, "gossip")
 						}
 					}()
 				}
@@ -249,6 +287,10 @@ func RunCluster(t *testing.T, cs *ClusterScenario) []*Result {
 						}
 					}
 					start(c.Inst, rd, initial)
+					// memberlist join: the restarted instance pulls the full state of the instance it joins
+					if full, err := insts[0].s.Nflog.MarshalBinary(); err == nil && len(full) > 0 {
+						deliver(insts[c.Inst], full, &findings, cs, "join full state")
+					}
 				}
 			}
 			synctest.Wait()
@@ -258,7 +300,7 @@ func RunCluster(t *testing.T, cs *ClusterScenario) []*Result {
 				a, b := pp.Intn(cs.Cl.N), pp.Intn(cs.Cl.N)
 				if a != b && insts[a].alive && insts[b].alive {
 					if full, err := insts[a].s.Nflog.MarshalBinary(); err == nil && len(full) > 0 {
-						_ = insts[b].s.MergeNflog(full, mergeRecs(full))
+						deliver(insts[b], full, &findings, cs, "push/pull full state")
 						synctest.Wait()
 					}
 				}
@@ -317,6 +359,9 @@ func RunCluster(t *testing.T, cs *ClusterScenario) []*Result {
 	if !ok {
 		return nil // the bubble froze (see sim.Bubble): scenario skipped
 	}
+	if len(results) > 0 {
+		results[0].Findings = findings
+	}
 	return results
 }
 
@@ -327,6 +372,7 @@ func MonitorC08(cs *ClusterScenario, results []*Result) []vh.Violation {
 	if len(results) == 0 {
 		return out
 	}
+	out = append(out, results[0].Findings...)
 	r0 := results[0] // the instance that stayed up
 	type sent struct {
 		inst     int
